@@ -15,10 +15,11 @@ _FS_CACHE = {}
 
 def py_item(it):
     if isinstance(it, list):
-        key = tuple(sorted(it))
+        import common as _common
+        key = (_common.NAME_MODE,) + tuple(sorted(it))
         fs = _FS_CACHE.get(key)
         if fs is None:
-            fs = frozenset(NAMES.n(i) for i in key)
+            fs = frozenset(NAMES.n(i) for i in key[1:])
             _FS_CACHE[key] = fs
         return fs
     return NAMES.n(it)
